@@ -73,6 +73,38 @@ chk(
     "condition with elements outstanding / after close), never by wall clock; a rig that cannot reach quiescence is inconclusive.",
 )
 
+chk(
+    "C13", "wdverif/props/c13.py",
+    "reference-map monitor: after every API call of enumerated sequences (failure injected at every emitter construction/start opportunity) the real observer is audited through public API and marker events",
+    "Fault enumeration: every API call sequence up to length 3 (thorough: 4 strided) over 3 watch keys x 2 handlers x 7 call kinds, "
+    "re-run once per emitter-construction / on_thread_start opportunity with a failure injected there, plus random sequences to 15 "
+    "calls; after every call: observer.emitters vs reference key set, is_alive() vs started, marker event per key must reach exactly "
+    "the reference handler set, exceptions must match the reference (KeyError no-ops, injected failure).",
+    "Emitters are scripted (BaseObserver(ScriptedEmitter)). The reference encodes documented failure behaviour (see ASSUMPTIONS in "
+    "the evidence). Single-threaded by design: the property is about call sequences.",
+    category="fault_enumeration",
+)
+
+chk(
+    "C14", "wdverif/props/c14.py",
+    "runtime oracle on the two public generators over enumerated real directory trees whose names collide with the rewritten prefix",
+    "Exploration: all 5187 trees (names {a,b,ab}, depth<=3, <=5 entries) x {absolute, relative} x {str, bytes} x 4 (src,dest) "
+    "name pairs (thorough: complete; quick: strided) built as real directories below a base path that repeats the same names; "
+    "generate_sub_moved_events / generate_sub_created_events output compared as a multiset with a reference from the harness's own "
+    "scandir walk + os.path.join; parents before children; all synthetic; path type preserved.",
+    "Trusted: the reference walk. An absent source ('' for the full emitter) may be str or bytes.",
+)
+
+chk(
+    "C15", "wdverif/props/c15.py",
+    "recording handler subclass + independent reference evaluator (pathlib / re) over the full product of a small alphabet; same comparison under two-thread dispatch with line noise",
+    "Exploration: product of 12 event classes x 7 src x 5 dest x 12 include x 12 exclude lists x case_sensitive x ignore_directories "
+    "for PatternMatchingEventHandler and RegexMatchingEventHandler (thorough: complete, quick: 1/12 strided), base handler on every "
+    "class, filter_paths/match_any_paths on 6 path lists x 144 pattern pairs x 2; each dispatch is compared with a reference evaluator "
+    "written from the statement; a shared handler instance is also driven from two threads under sys.monitoring noise.",
+    "Trusted: the reference evaluator (PurePosixPath/PureWindowsPath.match, re.match; only non-empty paths are examined).",
+)
+
 _PENDING = "check not built yet in this round of work (planned in DESIGN.md section 3); not claimed until its monitor exists"
 _built = {c["id"] for c in CHECKS}
 for n in range(1, 21):
